@@ -47,9 +47,23 @@ struct JobResult {
 }
 
 fn trace_hash(case: &Case, r: &record::Record) -> u128 {
-    // key bytes differ between runs with real TLS: hash shapes, not payloads
+    // With real TLS the key material differs between runs and so do a few lengths (DER-encoded ECDSA
+    // signatures are 70-72 bytes): the reproducibility check then compares what the applications
+    // observed, not the packetisation.
     let tls = case.scn.tls == Tls::S2n;
     let mut s = String::new();
+    if tls {
+        let mut read_total: BTreeMap<(u8, u64), u64> = BTreeMap::new();
+        for a in &r.app {
+            match &a.ev {
+                record::App::Read { stream, len, .. } => *read_total.entry((a.ep, *stream)).or_insert(0) += *len as u64,
+                record::App::Write { .. } => {}
+                other => s.push_str(&format!("a{},{:?};", a.ep, other)),
+            }
+        }
+        s.push_str(&format!("{:?};{:?};{:?}", read_total, r.stalled, r.panicked.is_some()));
+        return key128(&s);
+    }
     for d in &r.dgrams {
         s.push_str(&format!("d{},{},{},{},{},{:?};", d.idx, d.t, d.from, d.payload.len(), d.action, d.delivered_at));
         if !tls {
